@@ -8,7 +8,7 @@ from vmon.oracle import geometry as G
 PROPERTY = "C17"
 RULE = ("(A) every ordered pair of the 97 elements of the radius table as a two-atom structure at distance "
         "cutoff-/+1e-3 and cutoff-/+2e-6, placed directly or so that the nearest image lies across a face, an edge or a "
-        "corner of an orthorhombic or triclinic cell (the number of faces crossed is measured after wrapping); "
+        "corner of an orthorhombic or triclinic cell (LAMMPS orientation, arbitrarily rotated, or with the lattice vectors permuted / negated) (the number of faces crossed is measured after wrapping); "
         "(B) random structures of 2-14 atoms in no cell / orthorhombic / triclinic cells with widths above the largest "
         "cutoff. Oracle: brute force over 125 images with the harness's own statement of the rule (radii and non-metal "
         "list read from the module as given data); pairs i<j, each once; shift+wrap and permutation relations; the same "
@@ -91,6 +91,10 @@ def rand_cell(rng, kind, lo, hi):
     for _ in range(100):
         xy, xz, yz = rng.uniform(-0.5, 0.5, 3) * np.array([a, a, b])
         cell = np.array([[a, 0, 0], [xy, b, 0], [xz, yz, c]])
+        if kind == "general":         # the same lattice in an arbitrary orientation (diagonal entries of any sign)
+            cell = cell.dot(G.random_rotation(rng).T)
+        elif kind == "permuted":      # lattice vectors listed in another order / one pair negated: zero or negative diagonal entries
+            cell = cell[[1, 2, 0]] if rng.integers(2) else cell * np.array([[-1.0], [-1.0], [1.0]])
         if G.perp_widths(cell).min() > lo:
             return cell
     return np.diag([a, b, c])
@@ -174,7 +178,7 @@ def run_case(case, ctx):
             margin = 1e-3 if rng.integers(3) else 2e-6      # also much closer to the cutoff than 1e-3 (still far from float noise)
             d = c + sign * margin
             st.seen("margin", margin)
-            kind = "ortho" if rng.integers(2) else "tri"
+            kind = ["ortho", "tri", "ortho", "tri", "general", "permuted"][int(rng.integers(6))]
             cell = rand_cell(rng, kind, 12.5, 16.0)
             ncross = {"direct": 0, "face": 1, "edge": 2, "corner": 3}[pl]
             # p1 close to the (1,1,..) corner in `ncross` fractional coordinates, direction pointing out of the cell there
